@@ -48,6 +48,7 @@ pub fn generate(seed: u64, index: u64, thorough: bool) -> Scenario {
                 WeightKind::Wide,
                 WeightKind::WithZeros,
                 WeightKind::WithNegatives,
+                WeightKind::Constant,
             ]);
             let mut w = gen_weights(&mut rng, wk, n, sc.width).unwrap();
             if wk == WeightKind::Wide && rng.chance(0.5) {
@@ -227,7 +228,8 @@ fn close_vec<T: Sc>(a: &[T], b: &[T], rel: f64, scale: f64) -> Option<String> {
         .fold(scale, f64::max);
     for (k, (x, y)) in a.iter().zip(b.iter()).enumerate() {
         let (x, y) = (x.f(), y.f());
-        if x.is_nan() && y.is_nan() {
+        if (x.is_nan() && y.is_nan()) || x == y {
+            // same NaN-ness or exactly equal (covers equal infinities)
             continue;
         }
         if !((x - y).abs() <= rel * scale + 8.0 * T::tiny()) {
